@@ -1,9 +1,7 @@
 (* C01 — RFC 9535 segments and selectors yield exactly the specified nodelist (evaluation part).
    Statements only; proofs live in proofs/EvalProofs.v.  The surface-syntax part (every
    spelling compiles to the same query) is in props/C01Syntax.v. *)
-From JP Require Import Base Json PySlice Syntax Eval Rfc9535 Rfc9535Typing EvalProofs.
-
-Definition node_of (m : jmatch) : node := (m_parts m, m_val m).
+From JP Require Import Base Json PySlice Syntax Eval Rfc9535 Rfc9535Typing EvalCorr EvalProofs.
 
 (* every RFC 9535 query, every JSON value: the matches are exactly the RFC nodelist -
    length, order and duplicates included, object members in document order *)
